@@ -97,7 +97,7 @@ PROPS["C05"] = {
     "explanation": "crash model",
 }
 PROPS["C04"] = {
-    "proof_files": ["Proofs/Crash.v", "Proofs/Dispatch.v", "Proofs/Geometry.v", "Proofs/Resume.v", "Proofs/ResumeFile.v"],
+    "proof_files": ["Proofs/Crash.v", "Proofs/Dispatch.v", "Proofs/Geometry.v", "Proofs/Resume.v", "Proofs/ResumeFile.v", "Proofs/ResumeChain.v"],
     "gen_files": ["Gen/Geometry.v"],
     "corr": ["C05", "C17", "C06"],
     "trusted_base": ["tie to the code: CORRESPONDENCE - the crash model (as in C05), the dispatch model (as in C17) and the resume handshake model Model/Resume.v (as in C06: returned fields, chunks sent, the re-sent chunk and the final file bytes of resumed real transfers are compared with the model) are validated against the code; every kill-point snapshot of real runs is resumed from with the real endpoints, up to 3 interruptions deep, and the final tree compared with the source",
